@@ -51,6 +51,9 @@ partial def loop (h : IO.FS.Stream) (out : IO.FS.Stream) (cache : VCache) : IO U
     let (ans, cache) := verifyAnswer cache toks
     out.putStrLn ans
     loop h out cache
+  else if toks.headD "" == "prove" then
+    out.putStrLn (proveAnswer t)
+    loop h out cache
   else
     out.putStrLn (answer line)
     loop h out cache
